@@ -183,6 +183,7 @@ size_t job_build(uint8_t *out, const vs_dev_t *devs, int ndevs, const void *payl
 }
 const uint8_t *job_parse(const void *job, size_t n, vs_dev_t *devs, int *ndevs, size_t *plen) {
 	const uint8_t *p = job; size_t o = 0; int k = p[o++];
+	vs_unlock_points_req = k >> 6; k &= 63;      /* e1_spec_t.unlock_points travels in the two top bits of the deviation count */
 	for (int i = 0; i < k; i++) { memcpy(&devs[i].pos, p + o, 4); o += 4; devs[i].alt = p[o++]; memcpy(&devs[i].sig, p + o, 4); o += 4; }
 	*ndevs = k; *plen = n - o;
 	return p + o;
